@@ -5,13 +5,13 @@
 (* SQLite database by the harness.                                         *)
 (***************************************************************************)
 EXTENDS SqlStore, Json
-CONSTANTS Export
+CONSTANTS Export, U
 
 Tg(n, v)  == [name |-> n, val |-> v, n |-> 2]
 Tg3(n, v) == [name |-> n, val |-> v, n |-> 3]
 Ev(i, a, k, t, tg) == [id |-> i, author |-> a, kind |-> k, ts |-> t, tags |-> tg]
 
-Universe == {
+Universe1 == {
   Ev("r1", "a", 1, 1, <<Tg("t", "x")>>),
   Ev("x1", "a", 30000, 1, <<Tg("d", "x")>>), Ev("x2", "a", 30000, 2, <<Tg("d", "x"), Tg("t", "x")>>),
   Ev("x4", "b", 30000, 3, <<Tg("d", "x")>>),
@@ -24,6 +24,17 @@ Universe == {
   Ev("k7", "a", 5, 4, <<Tg("e", "k1")>>),
   Ev("r6", "b", 1, 2, <<Tg("t", "x"), Tg("t", "y"), Tg("p", "a")>>)   \* two values of one tag name
 }
+
+\* a second universe: d values containing ':' (a URL, a nested address) and their neighbours
+Universe2 == {
+  Ev("u1", "a", 30000, 1, <<Tg("d", "u:v")>>), Ev("u2", "a", 30000, 2, <<Tg("d", "u:v")>>),
+  Ev("u3", "a", 30000, 1, <<Tg("d", "u")>>), Ev("u4", "a", 30000, 1, <<Tg("d", "u:v:w")>>),
+  Ev("u5", "b", 30000, 1, <<Tg("d", "u:v")>>),
+  Ev("j1", "a", 5, 3, <<Tg("a", "30000:a:u:v")>>),
+  Ev("j2", "a", 5, 3, <<Tg("a", "30000:a:u")>>),
+  Ev("j3", "a", 5, 4, <<Tg3("a", "30000:a:u:v:w"), Tg("e", "u3")>>)
+}
+Universe == IF U = 1 THEN Universe1 ELSE Universe2
 
 VARIABLE st
 Ids(S) == {e.id : e \in S}
